@@ -430,6 +430,10 @@ def install(extra_modules=()):
     import circuits.core.pollers as P
     for mod in (M, H, E, P) + tuple(extra_modules):
         monitor_module(mod)
+    # the originals of the methods world.py wraps are no longer class attributes: monitor them explicitly
+    for f in world._real.values():
+        if isinstance(f, types.FunctionType):
+            _walk_code(f.__code__)
 
 
 def begin(ctx):
